@@ -1,4 +1,4 @@
-import PyseqmVerif.Properties.Census
+import PyseqmVerif.Properties.CensusGuards
 import PyseqmVerif.Model.Validate
 import Mathlib.Tactic.Common
 /-!
